@@ -1,3 +1,314 @@
 import FiberModel.DriverUtil
--- stub driver for C11; replaced when the property's model lands
-def main : IO Unit := pure ()
+import FiberModel.C11.Spec
+/-
+Driver for C11. Case fields (after the id):
+  rt  source split auto schema  v₁ … vₙ (one hex list of texts per schema entry)            implObs
+  raw source split auto target schema ctype(hex) payload(hex) headers(hex list "Name: value") implObs
+schema = entries `calias:salias:qalias:goName:kind:bits:slice` (hex names) joined by `|`.
+implObs = `wire=…;dec=…;err=…;code=…;status=…;codec=…` | `senderr=…` | `notrun;status=…` | `panic=…`.
+-/
+open B DriverUtil C11
+
+def parseKind (k : String) (bits : Nat) : Option Kind :=
+  match k with
+  | "str" => some .str
+  | "int" => some (.int bits)
+  | "uint" => some (.uint bits)
+  | "bool" => some .bool
+  | "float" => some (.float bits)
+  | _ => none
+
+def parseSpec (e : String) : Option FieldSpec :=
+  match e.splitOn ":" with
+  | [c, s, q, g, k, bits, sl] => do
+    let bits ← bits.toNat?
+    let kind ← parseKind k bits
+    if sl != "0" && sl != "1" then none
+    some { calias := ← fromHex c, salias := ← fromHex s, qalias := ← fromHex q, goName := ← fromHex g,
+           kind := kind, isSlice := sl == "1" }
+  | _ => none
+
+def parseSchema (s : String) : Option (List FieldSpec) := (s.splitOn "|").mapM parseSpec
+
+/-- text → value of a kind, for *reading* protocol fields (client values, decoded observations) -/
+def readVal (k : Kind) (t : Bytes) : Option Val :=
+  match k with
+  | .float _ => some (.float t)
+  | .bool => if t = b "true" then some (.bool true) else if t = b "false" then some (.bool false) else none
+  | .int bits => match parseInt bits t with
+    | some i => if formatInt i = t then some (.int i) else none
+    | none => none
+  | .uint bits => match parseUint bits t with
+    | some n => if formatNat n = t then some (.uint n) else none
+    | none => none
+  | .str => some (.str t)
+
+def readField (sp : FieldSpec) (s : String) : Option Field := do
+  let ts ← hexList s
+  let vs ← ts.mapM (readVal sp.kind)
+  let f : Field := { spec := sp, vals := vs }
+  if f.wellTyped then some f else none
+
+def readStruct : List FieldSpec → List String → Option Struct
+  | [], [] => some []
+  | sp :: sps, s :: ss => do
+    let f ← readField sp s
+    let r ← readStruct sps ss
+    some (f :: r)
+  | _, _ => none
+
+def renderDec (vals : List (List Val)) : String :=
+  "/".intercalate (vals.map fun vs => hexListField (vs.map textOf))
+
+def bytesLe : Bytes → Bytes → Bool
+  | [], _ => true
+  | _ :: _, [] => false
+  | x :: xs, y :: ys => if x < y then true else if y < x then false else bytesLe xs ys
+
+def sortBytes (l : List Bytes) : List Bytes := l.mergeSort bytesLe
+
+def renderMap (m : List (Bytes × List Bytes)) : String :=
+  if m.isEmpty then "-" else
+  let keys := sortBytes (m.map (·.1))
+  "/".intercalate (keys.map fun k => toHexField k ++ "=" ++ hexListField ((m.find? (·.1 = k)).map (·.2) |>.getD []))
+
+def kvOf (s : String) : List (String × String) :=
+  (s.splitOn ";").filterMap fun p => match p.splitOn "=" with
+    | k :: v :: rest => some (k, "=".intercalate (v :: rest))
+    | _ => none
+
+structure ImplObs where
+  kind : String            -- "obs" | "senderr" | "notrun" | "panic"
+  wire : String := "-"
+  dec : String := "-"
+  err : Bool := false
+  code : Nat := 0
+  status : Nat := 0
+  codec : String := "-"
+
+def parseImpl (s : String) : Option ImplObs :=
+  if s.startsWith "senderr=" then some { kind := "senderr" }
+  else if s.startsWith "panic=" then some { kind := "panic" }
+  else if s.startsWith "notrun;" then
+    match (kvOf s).find? (·.1 == "status") with
+    | some (_, v) => v.toNat?.map fun st => { kind := "notrun", status := st }
+    | none => none
+  else
+    let kv := kvOf s
+    let get (k : String) : Option String := (kv.find? (·.1 == k)).map (·.2)
+    do
+      let wire ← get "wire"
+      let dec ← get "dec"
+      let err ← get "err"
+      let code ← (← get "code").toNat?
+      let status ← (← get "status").toNat?
+      let codec ← get "codec"
+      if err != "0" && err != "1" then none
+      some { kind := "obs", wire := wire, dec := dec, err := err == "1", code := code, status := status, codec := codec }
+
+def renderObs (wire dec : String) (err : Bool) (code status : Nat) (codec : String) : String :=
+  s!"wire={wire};dec={dec};err={if err then 1 else 0};code={code};status={status};codec={codec}"
+
+def transportOf (s : String) : Option Transport :=
+  match s with
+  | "query" => some .query | "form" => some .form | "multipart" => some .multipart
+  | "header" => some .header | "cookie" => some .cookie | "json" => some .json
+  | "xml" => some .xml | "cbor" => some .cbor | _ => none
+
+/-- decoded observation → typed values -/
+def readDec (specs : List FieldSpec) (dec : String) : Option (List (List Val)) :=
+  let parts := dec.splitOn "/"
+  if parts.length != specs.length then none
+  else (specs.zip parts).mapM fun (sp, p) => do
+    let ts ← hexList p
+    ts.mapM (readVal sp.kind)
+
+def idFloat : Nat → Bytes → Option Bytes := fun _ t => some t
+def noFloat : Nat → Bytes → Option Bytes := fun _ _ => none
+
+/-- data keys that would make gofiber/schema's result depend on Go's map order, or that fold to an
+    alias only under Unicode case folding (U+017F, U+212A) -/
+def ambiguous (specs : List FieldSpec) (data : List (Bytes × List Bytes)) : Bool :=
+  specs.any (fun f => decide ((data.filter fun kv => !kv.1.contains 46 && toLower kv.1 == toLower f.salias).length > 1)) ||
+  data.any fun kv => (indexOf kv.1 [197, 191]).isSome || (indexOf kv.1 [226, 132, 170]).isSome
+
+def floatTouched (specs : List FieldSpec) (data : List (Bytes × List Bytes)) : Bool :=
+  specs.any fun f => match f.kind with
+    | .float _ => match lookupField data f.salias with
+      | some ts => ts.any (!·.isEmpty)
+      | none => false
+    | _ => false
+
+def isZeroStruct (st : Struct) : Bool :=
+  st.all fun f => f.vals.all fun v => v == zeroOf (b "0") f.spec.kind
+
+def sourceOf : Transport → Option Source
+  | .query => some .query | .form => some .form | .header => some .header | .cookie => some .cookie
+  | _ => none
+
+def cookieItems (ps : List (Bytes × Bytes)) : Bytes :=
+  join (sortBytes (ps.map fun kv => if kv.1.isEmpty then kv.2 else kv.1 ++ [61] ++ kv.2)) [59, 32]
+
+def handleRT (id : String) (src split auto schema : String) (vals : List String) (impl : String) :
+    Except String Verdict := do
+  let some t := transportOf src | throw "outside-domain: source"
+  if (split != "0" && split != "1") || (auto != "0" && auto != "1") then throw "outside-domain: flags"
+  let split := split == "1"
+  let auto := auto == "1"
+  let some specs := parseSchema schema | throw "outside-domain: schema"
+  if !specsOK specs then throw "outside-domain: schema aliases"
+  let some st := readStruct specs vals | throw "outside-domain: struct value"
+  let some io := parseImpl impl | throw "unparsable-observation"
+  let wf := wfStruct t st
+  -- ---- model ----
+  let body (codec : String) (ct : Bytes) : String :=
+    renderObs (toHexField ct) (renderDec (structVals st)) false 0 200 codec
+  let viaPairs (s : Source) (wire : String) (pairs : List (Bytes × Bytes)) : String :=
+    let r := bindPairs idFloat (b "0") specs s split pairs
+    renderObs wire (renderDec (structVals r.value)) r.err (if r.err && auto then 400 else 0)
+      (statusOf auto r.err false) "-"
+  let modelObs : String :=
+    if !wf then impl
+    else match t with
+      | .query => let w := renderArgs (clientPairs st); viaPairs .query (toHexField w) (parseArgs w)
+      | .form => let w := renderArgs (clientPairs st); viaPairs .form (toHexField w) (parseArgs w)
+      | .header =>
+        let ps := clientPairs st
+        viaPairs .header (hexListField (ps.map fun kv => kv.1 ++ b ": " ++ kv.2)) ps
+      | .cookie =>
+        let ps := cookiePairs st
+        viaPairs .cookie (toHexField (cookieItems ps)) (parseCookies (renderCookies ps))
+      | .multipart =>
+        -- the multipart codec is a parameter that delivers the client's pairs (grouped per key) to
+        -- `FormBinding.bindMultipart`, which runs the same `formatBindData` as the urlencoded form
+        viaPairs .form (toHexField (b "multipart/form-data")) (clientPairs st)
+      | .json => body "json" (b "application/json")
+      | .xml => body "xml" (b "application/xml")
+      | .cbor => body "cbor" (b "application/cbor")
+  -- ---- spec on the implementation's observation ----
+  let obs : Option Obs :=
+    match io.kind with
+    | "panic" => some { panicked := true, ran := true, sendErr := false, dec := [], err := false, code := 0, status := 0 }
+    | "senderr" => some { panicked := false, ran := false, sendErr := true, dec := [], err := false, code := 0, status := 0 }
+    | "notrun" => some { panicked := false, ran := false, sendErr := false, dec := [], err := false, code := 0, status := io.status }
+    | _ => (readDec specs io.dec).map fun d =>
+        { panicked := false, ran := true, sendErr := false, dec := d, err := io.err, code := io.code, status := io.status }
+  let spec : Option String := match obs with
+    | none => some "unparsable-observation"
+    | some o => specRoundTrip t split auto st o
+  let k1 := t == .cookie && multiValuedSlice st
+  let tags := [s!"rt-{src}", if wf then "wf" else "outside-model",
+               if split && !noCommas st then "split-with-commas" else if split then "split-no-commas" else "nosplit"] ++
+              (if k1 then ["k1-region"] else []) ++
+              (if wf && !isZeroStruct st then [s!"nt-rt-{src}"] else [])
+  pure { id := id, modelObs := modelObs, implObs := impl, spec := spec,
+         known := if k1 then some "K1" else none, tags := tags }
+
+def specialHeader (k : Bytes) : Bool :=
+  [b "host", b "content-type", b "content-length", b "user-agent", b "cookie", b "connection",
+   b "transfer-encoding", b "trailer"].contains (toLower k)
+
+/-- fasthttp `normalizeHeaderKey` -/
+def normalizeHeaderKey : Bytes → Bytes
+  | [] => []
+  | c :: cs =>
+    let rec go : Bytes → Bool → Bytes
+      | [], _ => []
+      | x :: xs, up => if up then upperByte x :: go xs false
+                       else if x == 45 then x :: go xs true else lowerByte x :: go xs false
+    upperByte c :: go cs false
+
+def cutHeader (h : Bytes) : Option (Bytes × Bytes) :=
+  match indexOf h (b ": ") with
+  | some i => some (h.take i, h.drop (i + 2))
+  | none => none
+
+def handleRaw (id : String) (src split auto target schema ctype payload hdrs impl : String) :
+    Except String Verdict := do
+  if (split != "0" && split != "1") || (auto != "0" && auto != "1") then throw "outside-domain: flags"
+  if target != "struct" && target != "map" then throw "outside-domain: target"
+  let split := split == "1"
+  let auto := auto == "1"
+  let some specs := parseSchema schema | throw "outside-domain: schema"
+  if !specsOK specs then throw "outside-domain: schema aliases"
+  let some ctype := fromHex ctype | throw "outside-domain: ctype"
+  let some payload := fromHex payload | throw "outside-domain: payload"
+  let some hdrs := hexList hdrs | throw "outside-domain: headers"
+  let some io := parseImpl impl | throw "unparsable-observation"
+  if io.kind == "senderr" || io.kind == "notrun" then throw "outside-domain: raw case did not run"
+  -- pairs as the binder's VisitAll yields them, and the wire observation
+  let (s, pairs, wire, codec, opq, noCodec) ←
+    (match src with
+     | "query" =>
+       -- a request target with control bytes, '#', ' ' or "://" does not reach the handler as given
+       if payload.any (fun c => c < 33 || c == 127 || c == 35) || (indexOf payload (b "://")).isSome then
+         throw "outside-domain: query bytes the URI parser rejects or rewrites"
+       else pure (Source.query, parseArgs payload, toHexField payload, "-", false, false)
+     | "cookie" =>
+       let ps := parseCookies payload
+       pure (Source.cookie, ps, toHexField (cookieItems ps), "-", false, false)
+     | "header" =>
+       match hdrs.mapM cutHeader with
+       | none => throw "outside-domain: header line"
+       | some ps =>
+         if ps.any (fun kv => specialHeader kv.1 || kv.1.isEmpty || normalizeHeaderKey kv.1 != kv.1) then
+           throw "outside-domain: header name"
+         else
+           let xs := ps.filter fun kv => decide (kv.1.length > 2) && kv.1.take 2 == b "X-"
+           pure (Source.header, ps, hexListField (xs.map fun kv => kv.1 ++ b ": " ++ kv.2), "-", false, false)
+     | "body" =>
+       let w := toHexField ctype
+       match dispatch ctype with
+       | .none => pure (Source.form, [], w, "-", false, true)
+       | .json => pure (Source.form, [], w, "json", true, false)
+       | .xml => pure (Source.form, [], w, "xml", true, false)
+       | .cbor => pure (Source.form, [], w, "cbor", true, false)
+       | .form =>
+         if formIsMultipart ctype then pure (Source.form, [], w, "-", true, false)
+         else pure (Source.form, postArgs ctype payload, w, "-", false, false)
+     | _ => throw "outside-domain: source" : Except String (Source × List (Bytes × Bytes) × String × String × Bool × Bool))
+  let zeroDec := if target == "map" then "-" else renderDec (structVals (zeroStruct (b "0") specs))
+  let mut outside := false
+  let modelObs ←
+    (if noCodec then pure (renderObs wire zeroDec true 422 422 "-")
+     else if opq then
+       -- codec internals are parameters of the model: decoded value and success are taken from the
+       -- observation; selection, error code and status are predicted
+       if io.kind == "panic" then pure impl
+       else pure (renderObs wire io.dec io.err (if io.err && auto then 400 else 0) (statusOf auto io.err false) codec)
+     else if target == "map" then
+       match bindPairsMap s split pairs with
+       | none => pure (renderObs wire "-" true (if auto then 400 else 0) (statusOf auto true false) "-")
+       | some m => pure (renderObs wire (renderMap m) false 0 200 "-")
+     else
+       match collect (equalFieldType specs) split s.brackets pairs [] with
+       | none => pure (renderObs wire zeroDec true (if auto then 400 else 0) (statusOf auto true false) "-")
+       | some data =>
+         if ambiguous specs data then throw "outside-domain: keys differing only in case"
+         else if floatTouched specs data then pure "FLOAT"
+         else
+           let r := decodeFields noFloat (b "0") specs data
+           pure (renderObs wire (renderDec (structVals r.1)) r.2 (if r.2 && auto then 400 else 0)
+                   (statusOf auto r.2 false) "-") : Except String String)
+  let modelObs := if modelObs == "FLOAT" then impl else modelObs
+  if modelObs == impl && opq then outside := true
+  let obs : Obs :=
+    { panicked := io.kind == "panic", ran := true, sendErr := false, dec := [], err := io.err, code := io.code, status := io.status }
+  let spec := specTotal auto obs
+  let tags := [s!"raw-{src}", s!"to-{target}", if io.err then "err" else "ok"] ++
+              (if opq then ["codec-opaque"] else []) ++ (if noCodec then ["no-codec"] else []) ++
+              (if src == "body" then [s!"dispatch-{codec}"] else []) ++
+              (if !payload.isEmpty || !hdrs.isEmpty then [s!"nt-raw-{src}"] else [])
+  pure { id := id, modelObs := modelObs, implObs := impl, spec := spec, tags := tags }
+
+def handleCase (f : List String) : Except String Verdict := do
+  match f with
+  | id :: "rt" :: src :: split :: auto :: schema :: rest =>
+    match rest.reverse with
+    | impl :: valsRev => handleRT id src split auto schema valsRev.reverse impl
+    | [] => throw "outside-domain: fields"
+  | [id, "raw", src, split, auto, target, schema, ctype, payload, hdrs, impl] =>
+    handleRaw id src split auto target schema ctype payload hdrs impl
+  | _ => throw s!"outside-domain: unknown case shape ({f.length} fields)"
+
+def main : IO Unit := run handleCase
